@@ -95,6 +95,28 @@ theorem C01_dollar_rule (q : Path) (topic : Str) :
   unfold dollarRule topicDollar wildStart
   cases topic <;> simp
 
+/-- the clause seed C03-r3 removes from the code, at every depth: a filter `pre/+/#` matches every topic that ends
+    exactly at the `+` level (the trailing `#` matches its parent level, MQTT 4.7.1.2) — whenever `pre` matches the
+    topic's leading levels and holds no `#`. With `C01_clients_exact` (the scan returns exactly the `specMatch`
+    subscribers in every history) the model's scan must return such a subscriber. -/
+theorem C01_plus_hash_parent_level (pre ts : Path) (t : Str) (hm : matchLv pre ts = true)
+    (hh : ∀ f ∈ pre, f ≠ [hash]) : matchLv (pre ++ [[plus], [hash]]) (ts ++ [t]) = true := by
+  induction pre generalizing ts with
+  | nil =>
+    cases ts with
+    | nil => simp [matchLv, plus, hash]
+    | cons a as => simp [matchLv] at hm
+  | cons f fs ih =>
+    have hf : (f == [hash]) = false := by simpa using hh f (by simp)
+    cases ts with
+    | nil => simp [matchLv, hf] at hm
+    | cons a as =>
+      simp only [matchLv, hf, Bool.false_eq_true, if_false, Bool.and_eq_true] at hm
+      simp only [List.cons_append, matchLv, hf, Bool.false_eq_true, if_false, Bool.and_eq_true]
+      exact ⟨hm.1, ih as hm.2 (fun g hg => hh g (by simp [hg]))⟩
+
+#print axioms C01_plus_hash_parent_level
+
 /-- `+/#` matches the parent level; `a/#` matches `a`; a leading wildcard is excluded for `$` topics
     (the three witnesses of the repaired defects), and non-vacuity of the hypotheses. -/
 example : matchLv [[plus], [hash]] [[97]] = true := by decide
